@@ -304,3 +304,65 @@ Definition rendered_of (t : text) : list (Z * (Z * Z)) :=
   | Ok l => map (fun '(c, sty) => (c, eff_style sty)) l
   | _ => [(-1, (-1, -1))]
   end.
+
+(* ---------- the store of reference values: plain independent values ---------- *)
+Definition r_sapply (s : sop) (st : list ref) : res (list ref) :=
+  match s with
+  | SApply y x o =>
+      match nth_error st x with
+      | None => Crash K_IndexError
+      | Some r => if inplace o && negb (Nat.eqb y x) then Crash K_Other
+                  else do r' <- r_apply o r; Ok (sset st y r')
+      end
+  | SLines x o =>
+      match nth_error st x with
+      | None => Crash K_IndexError
+      | Some r =>
+          match o with
+          | OSplit sep incl allow _ =>
+              match sep with [] => Crash K_AssertionError | _ => Ok (st ++ r_split r sep incl allow) end
+          | ODivide offs _ => Ok (st ++ r_divide r offs)
+          | _ => Crash K_Other
+          end
+      end
+  | SAppendText x z | SAppendTextFast x z =>
+      match nth_error st x, nth_error st z with
+      | Some r, Some o => if Nat.eqb x z then Crash K_Other else Ok (sset st x (r_append_text r o))
+      | _, _ => Crash K_IndexError
+      end
+  | SCopyStyles x z =>
+      match nth_error st x, nth_error st z with
+      | Some r, Some o => if Nat.eqb x z then Crash K_Other else Ok (sset st x (r_copy_styles r o))
+      | _, _ => Crash K_IndexError
+      end
+  | SJoin y sep lines =>
+      match nth_error st sep, sgets st lines with
+      | Some s, Some ls => Ok (sset st y (r_join s ls))
+      | _, _ => Crash K_IndexError
+      end
+  | SAssemble y b parts =>
+      match sgets st parts with
+      | Some ps => Ok (sset st y (r_assemble (default_meta b) (map RText ps)))
+      | None => Crash K_IndexError
+      end
+  end.
+Definition r_sstep (st : list ref) (s : sop) : list ref :=
+  match r_sapply s st with Ok st' => st' | _ => st end.
+Definition srun_ref (sops : list sop) (st : list ref) : list ref := fold_left r_sstep sops st.
+
+Definition sop_ok (s : sop) (st : list ref) : bool :=
+  match s with
+  | SApply y x o => match nth_error st x with Some r => op_ok o r | None => true end
+  | SLines x o => match nth_error st x with Some r => op_ok o r | None => true end
+  | SCopyStyles x z =>
+      match nth_error st x, nth_error st z with
+      | Some r, Some o => zlen (rchars o) =? zlen (rchars r)
+      | _, _ => true
+      end
+  | _ => true
+  end.
+Fixpoint in_sdomain (sops : list sop) (st : list ref) : bool :=
+  match sops with
+  | [] => true
+  | s :: rest => sop_ok s st && in_sdomain rest (r_sstep st s)
+  end.
